@@ -122,3 +122,13 @@ Example C02_example :
   monotonic_factorization [Some 3; Some 3; Some 5; None; Some 9] = (3, [0; 0; 1], [3; 5]) /\
   monotonic_factorization [Some 3; Some 4; Some 2] = (2, [0; 1], [3; 4]).
 Proof. repeat split; vm_compute; reflexivity. Qed.
+
+(* Tie B (pins): the functions this property's models transcribe read, statement by statement, as they did when the models
+   were written against them; Gen/SourcesGen.v is regenerated from /repo on every run (translator/pins.py). *)
+From GL Require Import Gen.SourcesGen Model.Sources Proofs.PinC02.
+Theorem C02_modelled_functions_are_the_source's :
+  gen_src_combine_factorizations = src_combine_factorizations /\
+  gen_src_monotonic_factorization = src_monotonic_factorization /\
+  gen_src_build_group_sorted_indexer = src_build_group_sorted_indexer.
+Proof. exact (conj pin_combine_factorizations (conj pin_monotonic_factorization pin_build_group_sorted_indexer)). Qed.
+Print Assumptions C02_modelled_functions_are_the_source's.
